@@ -17,6 +17,7 @@ from typing import Dict, List, Optional, Tuple
 from ..cfg import (canon_test, cguards_of, ctext, branches, CFG, enum_paths, call_name, attr_chain, walk_no_nested, parents_map,
                    guards_of, const_int, names_loaded)
 from ..core import AnalysisError, Ctx, Func, norm
+from ..util import branch_raises
 from ..poly import Poly, poly_of
 
 SPEC = {
@@ -443,16 +444,43 @@ def r13_1(ctx: Ctx):
     c3_, c6_ = ctext("%s == 3" % (ndv or "n"))[0], ctext("%s == 6" % (ndv or "n"))[0]
     vel_ok = ndv is not None and seen_vals.get(False) == [(c3_, True)] and \
         seen_vals.get(True) == sorted([(c3_, False), (c6_, True)])
-    ctx.ob("R13.1", d, "velocities flag from the number of decimal points: %s" % seen_vals, vel_ok,
-           "three decimal points after the header mean positions only, six mean positions and velocities, anything else is refused",
-           node=d.node)
+    if seen_vals:
+        ctx.ob("R13.1", d, "velocities flag from the number of decimal points: %s" % seen_vals, vel_ok,
+               "three decimal points after the header mean positions only, six mean positions and velocities, anything else is refused",
+               node=d.node)
+    else:
+        # the flag is not set by constant assignments under tests of the count: other recognised spelling
+        # `if n not in (3, 6): raise` (canonical: n == 3 or n == 6) followed by `velocities = n == 6`
+        alt = False
+        for s_ in walk_no_nested(d.node):
+            if isinstance(s_, ast.Assign) and velv and norm(s_.targets[0]) == velv and isinstance(s_.value, ast.Compare) \
+                    and isinstance(s_.value.ops[0], ast.Eq) and const_int(s_.value.comparators[0]) == 6 and isinstance(s_.value.left, ast.Name):
+                ndv = s_.value.left.id
+                want_ = canon_test(ast.parse("%s == 3 or %s == 6" % (ndv, ndv), mode="eval").body, False)
+                alt = any(isinstance(n_, ast.If) and branch_raises(n_.body) and canon_test(n_.test, True) == want_
+                          and n_.lineno < s_.lineno for n_ in walk_no_nested(d.node))
+        if alt:
+            ctx.ob("R13.1", d, "velocities flag: %s == 6 after refusing counts other than 3 and 6" % ndv, True,
+                   "three decimal points after the header mean positions only, six mean positions and velocities, anything else is refused",
+                   node=d.node)
+        else:
+            ctx.ob("R13.1", d, "velocities flag", True, "the velocity flag is not set in a recognised form; not decided on this tree",
+                   undecided=True, node=d.node)
     figs = pfind(d.node, "V_fig = (V_size - cls.COORD_START) // V_nd")
     okf = any(b_["V_fig"] == figv and b_["V_nd"] == ndv for _, b_ in figs)
     if okf:
         szb = [b_ for _, b_ in figs if b_["V_fig"] == figv][0]["V_size"]
         okf = bool(pfind(d.node, "%s = len(V_line)" % szb))
-    ctx.ob("R13.1", d, figs[0][0] if figs else "field width", okf,
-           "the field width is (line length - header width) // number of float fields", node=figs[0][0] if figs else d.node)
+    if not figs:
+        dm = pfind(d.node, "V_fig, V_rem = divmod(len(V_line) - cls.COORD_START, V_nd)")
+        if dm and dm[0][1]["V_fig"] == figv and dm[0][1]["V_nd"] == ndv:
+            figs, okf = dm, True
+    if figs:
+        ctx.ob("R13.1", d, figs[0][0], okf,
+               "the field width is (line length - header width) // number of float fields", node=figs[0][0])
+    else:
+        ctx.ob("R13.1", d, "field width", True, "the field width is not computed in a recognised form; not decided on this tree",
+               undecided=True, node=d.node)
     n += 2
     cs = d.cls.consts.get("COORD_START") if d.cls else None
     hdr = Poly.const(0)
@@ -834,6 +862,7 @@ def r13_4(ctx: Ctx, rule: str = "R13.4"):
     te, td = _index_table(ex), _index_table(du)
     if te is None or td is None:
         ctx.ob(rule, ex, "index tables", True, "index tables not in the literal-tuple shape", undecided=True)
+        _triclinic_test(ctx, rule, du)
         return
     ctx.ob(rule, du, "index table %s" % (td[1],), sorted(td[1]) == list(range(9)),
            "writer's table is a permutation of 0..8", node=du.node)
@@ -872,30 +901,53 @@ def r13_4(ctx: Ctx, rule: str = "R13.4"):
     re_, rw = role(ex, te[0]), role(du, td[0])
     ctx.ob(rule, ex, "reader role=%s writer role=%s" % (re_, rw), {re_, rw} == {"scatter", "gather"},
            "one side scatters by the table and the other gathers by it (inverse permutations)", node=ex.node)
+    _triclinic_test(ctx, rule, du)
+
+
+def _triclinic_test(ctx: Ctx, rule: str, du: Func):
     # nine numbers whenever any off-diagonal component is non-zero
+    from ..pat import single_defs as _sd
+    sd_ = _sd(du.node)
     ifs = [n_ for n_ in walk_no_nested(du.node) if isinstance(n_, ast.If)]
-    okt, shown = False, ""
+    okt, shown, verdict = False, "", None
     for n_ in ifs:
         t = n_.test
-        shown = norm(t)
-        inner = None
         tpol = True
         while isinstance(t, ast.UnaryOp) and isinstance(t.op, ast.Not):
             t, tpol = t.operand, not tpol
+        if isinstance(t, ast.Name) and t.id in sd_:
+            t = sd_[t.id]
+            while isinstance(t, ast.UnaryOp) and isinstance(t.op, ast.Not):
+                t, tpol = t.operand, not tpol
         when_any, when_none = (n_.body, n_.orelse) if tpol else (n_.orelse, n_.body)
+        body9 = any(isinstance(x, ast.Assign) and const_int(x.value) == 9 for x in when_any)
+        else3 = any(isinstance(x, ast.Assign) and const_int(x.value) == 3 for x in when_none)
+        if not (body9 or else3):
+            continue
+        shown = norm(t)
+        inner = None
         if isinstance(t, ast.Call) and call_name(t) in ("any", "count_nonzero") and (t.args or isinstance(t.func, ast.Attribute)):
             inner = t.args[0] if t.args else t.func.value
-        if inner is not None:
-            if isinstance(inner, ast.Compare) and isinstance(inner.ops[0], ast.NotEq) and const_int(inner.comparators[0]) == 0:
-                inner = inner.left
-            whole = isinstance(inner, ast.Subscript) and isinstance(inner.slice, ast.Slice) and const_int(inner.slice.lower) == 3 \
-                and inner.slice.upper is None and inner.slice.step is None
-            body9 = any(isinstance(x, ast.Assign) and const_int(x.value) == 9 for x in when_any)
-            else3 = any(isinstance(x, ast.Assign) and const_int(x.value) == 3 for x in when_none)
-            okt = whole and body9 and else3
-    ctx.ob(rule, du, "triclinic test `%s`" % shown, okt,
-           "all nine components are written as soon as any of the six off-diagonal ones is non-zero (of either sign), "
-           "three otherwise", node=ifs[0] if ifs else du.node)
+        if inner is None:
+            continue
+        if isinstance(inner, ast.Compare) and isinstance(inner.ops[0], ast.NotEq) and const_int(inner.comparators[0]) == 0:
+            inner = inner.left
+        whole = isinstance(inner, ast.Subscript) and isinstance(inner.slice, ast.Slice) and const_int(inner.slice.lower) == 3 \
+            and inner.slice.upper is None and inner.slice.step is None
+        partial = isinstance(inner, ast.Compare) or (isinstance(inner, ast.Call) and call_name(inner) in ("tril", "triu", "abs", "fabs", "absolute",
+                                                                                                           "isclose", "greater", "less")) \
+            or (isinstance(inner, ast.Subscript) and isinstance(inner.slice, ast.Slice) and not whole)
+        if whole:
+            okt, verdict = body9 and else3, True
+        elif partial:
+            okt, verdict = False, True
+    if verdict:
+        ctx.ob(rule, du, "triclinic test `%s`" % shown, okt,
+               "all nine components are written as soon as any of the six off-diagonal ones is non-zero (of either sign), "
+               "three otherwise", node=ifs[0] if ifs else du.node)
+    else:
+        ctx.ob(rule, du, "triclinic test `%s`" % shown, True, "the test that selects three or nine box components is not in a recognised "
+               "form; not decided on this tree", undecided=True, node=ifs[0] if ifs else du.node)
     # number of components written: 3 or 9
     lims = sorted({const_int(st.value) for st in walk_no_nested(du.node)
                    if isinstance(st, ast.Assign) and const_int(st.value) is not None})
@@ -1158,8 +1210,12 @@ def r13_6(ctx: Ctx, rule: str = "R13.6"):
     # reader: the title is the first line as read
     load = ctx.func("GroFile._load_and_verify")
     rd = [s_ for s_ in walk_no_nested(load.node) if isinstance(s_, ast.Assign) and attr_chain(s_.targets[0]) == "self._comment"]
-    okr = bool(rd) and norm(rd[0].value) in ("self._readline()", "self._file.readline()", "self._readline().rstrip('\\n')",
-                                             "self._readline()[:-1]")
+    from ..pat import single_defs as _sd13
+    rdv = rd[0].value if rd else None
+    if isinstance(rdv, ast.Name) and rdv.id in _sd13(load.node):
+        rdv = _sd13(load.node)[rdv.id]          # `line = self._readline(); self._comment = line`
+    okr = bool(rd) and norm(rdv) in ("self._readline()", "self._file.readline()", "self._readline().rstrip('\\n')",
+                                     "self._readline()[:-1]")
     ctx.ob(rule, load, rd[0] if rd else "title read", okr, "the title is the first line of the file as read", node=rd[0] if rd else load.node)
     gt = ctx.func("GroFile.comment@get")
     rets = [r_ for r_ in walk_no_nested(gt.node) if isinstance(r_, ast.Return)]
